@@ -106,7 +106,13 @@ for _c in OP_CLASSES:
                           c_header="void K_op_%s_img(const struct OP* op, struct C3* c)" % _c, loops=0, contract_alias="K_op_img",
                           rules=[(r"\bc\[1\]", "c->z", (1, 6)), (r"\bc\[2\]", "c->y", (0, 6)), (r"\bc\[3\]", "c->x", (0, 6)),
                                  (r"(?<![\w>.])(z_shift|q)\b", r"op->\1", (1, 6))]))
-KERNELS += KERNELS_B + KERNELS_I
+# the bundle of tangential rays of one bin (ProjMatrixByBinUsingRayTracing): offset of the first ray
+KERNELS_R = [dict(name="K_rt_first_ray", file="src/recon_buildblock/ProjMatrixByBinUsingRayTracing.cxx",
+                  cxx_name="ProjMatrixByBinUsingRayTracing::calculate_proj_matrix_elems_for_one_bin: position of the first of the tangential rays (statement kernel)",
+                  func=r"ProjMatrixByBinUsingRayTracing::calculate_proj_matrix_elems_for_one_bin\(ProjMatrixElemsForOneBin& lor\) const",
+                  span=(r"float current_s_in_mm = ", r";"), c_header="float K_rt_first_ray(const float s_in_mm, const float s_inc, const int num_tangential_LORs)", loops=0,
+                  rules=[(r"float current_s_in_mm = ", "const float K_first = ", 1)], post="return K_first;")]
+KERNELS += KERNELS_B + KERNELS_I + KERNELS_R
 
 
 def extra_gen(repo, gen_dir, metas):
@@ -206,6 +212,11 @@ def jobs(tier, gen_dir):
         out.append(Job("c03/" + k, HARNESS_I, "h_" + k, enforce=k, kernels=[k], flags=CH, no_base_flags=True, timeout=120, min_obligations=3, backend="kissat"))
         out.append(Job("c03/lemma_img_injective/" + c, HARNESS_I, "h_lemma_img_injective_" + c, kind="lemma", kernels=[k], flags=CH, no_base_flags=True, timeout=120,
                        min_obligations=1, backend="kissat", defines={"CONTRACTS_OFF": None}))
+    for n in ([2, 3, 4] if tier == "quick" else list(range(2, 9))):
+        out.append(Job("c03/K_rt_first_ray/n=%d" % n, HARNESS_I, "h_K_rt_first_ray", enforce="K_rt_first_ray", kernels=["K_rt_first_ray"], no_base_flags=True,
+                       flags=["--float-overflow-check", "--nan-check"], timeout=900, min_obligations=2, backend="sat", defines={"C03_NRAYS": n}, params={"num_tangential_LORs": n}))
+    out.append(Job("c03/canary/K_rt_first_ray", HARNESS_I, "h_K_rt_first_ray", enforce="K_rt_first_ray", kernels=["K_rt_first_ray"], kind="canary",
+                   defines={"CANARY_K_rt_first_ray": None, "C03_NRAYS": 2}, expect_fail=r"K_rt_first_ray\.postcondition", no_base_flags=True, timeout=300))
     out.append(Job("c03/canary/K_op_swap_xy_yx_img", HARNESS_I, "h_K_op_swap_xy_yx_img", enforce="K_op_swap_xy_yx_img", kernels=["K_op_swap_xy_yx_img"], kind="canary",
                    defines={"CANARY_K_op_swap_xy_yx_img": None}, expect_fail=r"K_op_swap_xy_yx_img\.postcondition", no_base_flags=True, timeout=120))
     out.append(Job("c03/canary/lemma_img_injective", HARNESS_I, "h_lemma_img_injective_swap_xy_yx", kind="canary", kernels=[], defines={"LEMMA_CANARY": None, "CONTRACTS_OFF": None},
@@ -238,6 +249,16 @@ def _tf(v, key, d):
 
 
 def replay(job, o, workroot, repo):
+    if "K_rt_first_ray" in job.name or "_img" in job.name or "img_" in job.name:
+        exe = os.path.join(workroot, "c03_rows_replay")
+        if not os.path.exists(exe):
+            exe, info = native.build(repo, os.path.join(VERIF, "replay", "c03_rows.cpp"), exe)
+            if not exe:
+                return {"status": "unavailable", "detail": "replay driver did not build: " + info}
+        st, detail = native.run(exe, [], timeout=1200)
+        if st == "confirmed":
+            return {"status": "confirmed", "detail": detail, "command": "c03_rows_replay", "from_verifier_counterexample": False}
+        return {"status": "not-reproduced", "detail": "c03_rows_replay: direct vs symmetry-derived rows, 1..4 tangential rays, 5 symmetry sets (" + str(detail)[:100] + ")"}
     if "symmetry" not in job.name:
         return {"status": "unavailable", "detail": "no native replay routine for this job (abstract row ids)"}
     exe = os.path.join(workroot, "c06_replay")
